@@ -194,7 +194,7 @@ static int fam_decrypt(int fam, int alg, const Inputs &in, Bytes &out, bool &buf
         if (in.ct.size() < 16) return -1;  // the incremental API cannot even be given a short tag
         std::vector<uint64_t> ch;
         size_t n = in.ct.size() - 16;
-        if (n) { ch.push_back(n / 3); ch.push_back(n - n / 3); }
+        if (n) { ch.push_back(n / 3); ch.push_back(0); ch.push_back(n - n / 3); }     // with an empty block call in the middle
         return inc_session_decrypt(alg, in.key, in.nonce, in.ad, in.ct, ch, out);
     }
     case 2: { lib::DecResult r = lib::masked_decrypt(alg, in.key, in.nonce, in.ad, in.ct); out = r.out; return r.rc; }
